@@ -47,7 +47,7 @@ def _family(tier, seed):
     return fam + [m, m2]
 
 
-REWRITES = ["R1", "R2", "R3a", "R3b", "R4h", "R4n", "R5", "R6", "R7"]
+REWRITES = ["R1", "R2", "R3a", "R3b", "R4h", "R4n", "R5", "R5s", "R6", "R7"]
 
 
 def items(tier, seed):
@@ -81,6 +81,10 @@ def _applicable(r, sh):
         return all(_applicable(x, sh) for x in r.split("+"))
     if r == "R5":
         return any(len(c["samples"][0]["data"]) >= 2 for c in spec["channels"]) and not _shared_binwise(spec)
+    if r == "R5s":
+        # split keeping the staterror name shared between the two parts (one parameter per bin, same order)
+        return (not _shared_binwise(spec)) and any(len(c["samples"][0]["data"]) >= 2 and any(m["type"] == "staterror" for s in c["samples"] for m in s["modifiers"])
+                                                   for c in spec["channels"])
     if r == "R6":
         return sh["tag"].startswith("mergeable")
     if r == "R7":
@@ -159,13 +163,18 @@ def rewrite(env, r, spec, poi):
             s["modifiers"].append({"name": "zz_null", "type": "normsys", "data": {"lo": 1.0, "hi": 1.0}})
         parmap["zz_null"] = ("new",)
         extra.append("zz_null")
-    elif r == "R5":
-        ci = next(i for i, c in enumerate(spec["channels"]) if len(c["samples"][0]["data"]) >= 2)
+    elif r in ("R5", "R5s"):
+        keep_stat = r == "R5s"
+        if keep_stat:
+            ci = next(i for i, c in enumerate(spec["channels"]) if len(c["samples"][0]["data"]) >= 2
+                      and any(m["type"] == "staterror" for s in c["samples"] for m in s["modifiers"]))
+        else:
+            ci = next(i for i, c in enumerate(spec["channels"]) if len(c["samples"][0]["data"]) >= 2)
         c = spec["channels"][ci]
         nb = len(c["samples"][0]["data"])
         k = nb // 2
         parts = []
-        for tagp, lo, hi in (("_lo", 0, k), ("_hi", k, nb)):
+        for tagp, lo, hi in ((("_a", 0, k), ("_b", k, nb)) if keep_stat else (("_lo", 0, k), ("_hi", k, nb))):
             cc = copy.deepcopy(c)
             cc["name"] = c["name"] + tagp
             for s in cc["samples"]:
@@ -174,6 +183,8 @@ def rewrite(env, r, spec, poi):
                     t = m["type"]
                     if t == "histosys":
                         m["data"] = {"lo_data": m["data"]["lo_data"][lo:hi], "hi_data": m["data"]["hi_data"][lo:hi]}
+                    elif t == "staterror" and keep_stat:
+                        m["data"] = m["data"][lo:hi]      # same name in both parts: one shared parameter set
                     elif t in ("shapesys", "staterror"):
                         m["data"] = m["data"][lo:hi]
                         parmap[m["name"] + tagp] = ("old", m["name"], lo)
